@@ -230,25 +230,33 @@ def check_widths(st, obs, proj):
     utail = umsg.split('\n')[-1]
     if 'str() failed' in utail or (st['res']['rootn'] and st['res'].get('rootglom', True) and not utail.endswith('planted %d' % st['res']['rootn'])):
         return 'the message of an error that cannot be copied ends with %r' % (utail,)
-    # a root target that is a collections.deque (reprlib has a limit of its own for it): shown in full
-    if not has_kind(st['tree'], ('copy', 'iter', 'consume')):
+    # root targets whose repr fits the line and must be shown as it is: a collections.deque (reprlib has a
+    # limit of its own for it), True and '' (objects that are also attributes of the builtins module), and a
+    # target whose repr fills a depth-0 line exactly
+    if not has_kind(st['tree'], ('copy', 'iter', 'consume', 'typ')):      # (typ: True is an int)
         import collections
-        dq = frames.execute(st['tree'], st['plan'], hook=False, big_root='deque')
-        want = repr(collections.deque([frames.Tok((0, 1)), frames.Tok((0, 2)), 3, 4, 5, 6, 7, 8, 9]))
-        if dq['out'] != 'err':
-            return 'with a deque root target the call succeeded'
-        try:
-            dmsg = str(dq['error'])
-        except Exception as ex:
-            return 'str(error) raised %s for a deque root target' % type(ex).__name__
-        parsed5, why5 = parse_trace(dmsg)
-        if why5:
-            return why5 + ' (deque root target)'
-        if [(d, k) for d, k, _ in parsed5[0]] != [(d, k) for d, k, _ in proj]:
-            return 'a deque root target changes the structure of the trace'
-        for (d, k, text), (_, _, ptext) in zip(parsed5[0], proj):
-            if k == 'T' and ptext == 't0' and text != want:
-                return 'a deque root target is shown as %r, its repr %r fits the line' % (text, want)
+        frames.ExactTok.WIDTH[0] = TRACE_WIDTH
+        exact = object.__new__(frames.ExactTok)
+        exact.ident, exact.eqclass = (0,), (0,)
+        for kind, want in (('deque', repr(collections.deque([frames.Tok((0, 1)), frames.Tok((0, 2)), 3, 4, 5, 6, 7, 8, 9]))),
+                           ('true', 'True'), ('emptystr', "''"), ('exact', repr(exact))):
+            dq = frames.execute(st['tree'], st['plan'], hook=False, big_root=kind)
+            if dq['out'] != 'err':
+                return 'with a %s root target the call succeeded' % kind
+            try:
+                dmsg = str(dq['error'])
+            except Exception as ex:
+                return 'str(error) raised %s for a %s root target' % (type(ex).__name__, kind)
+            parsed5, why5 = parse_trace(dmsg)
+            if why5:
+                return why5 + ' (%s root target)' % kind
+            if [(d, k) for d, k, _ in parsed5[0]] != [(d, k) for d, k, _ in proj]:
+                return 'a %s root target changes the structure of the trace' % kind
+            for (d, k, text), (_, _, ptext) in zip(parsed5[0], proj):
+                if k == 'T' and ptext == 't0' and (d == 0 or kind != 'exact') and text != want:
+                    return 'a %s root target is shown as %r, its repr %r fits the line' % (kind, text, want)
+                if k == 'T' and ptext == 't0' and d > 0 and kind == 'exact' and not shows(text, want):
+                    return 'a long root target is shown as %r, not a faithful prefix of its repr' % (text[:60],)
     # errors carrying a note (PEP 678): every branch error line still shows type and message, its note follows
     nt = frames.execute(st['tree'], st['plan'], hook=False, notes=True)
     if nt['out'] != 'err':
